@@ -26,6 +26,60 @@ type Loop struct {
 	hdrSt   *State
 	dec0    Term
 	hasDec  bool
+	frames  []loopFrame
+}
+
+type loopFrame struct {
+	key string
+	f   func(now Term) Term
+}
+
+// stableTerm: the term mentions no constant created after the stamp.
+func stableTerm(t Term, stamp int) bool {
+	s := t.S
+	for i := 0; i < len(s); i++ {
+		if s[i] == '!' {
+			j := i + 1
+			n := 0
+			for j < len(s) && s[j] >= '0' && s[j] <= '9' {
+				n = n*10 + int(s[j]-'0')
+				j++
+			}
+			if n > stamp {
+				return false
+			}
+			i = j
+		}
+	}
+	return true
+}
+
+// loopFrame builds the frame invariant of heap key k for a loop, or nil when the
+// body writes through references that are not loop-invariant.
+func (fr *Frame) loopFrame(lp *Loop, k string, wild map[string]bool, refs map[string]map[string]Term, stamp int, se *State) func(Term) Term {
+	if wild[k] || len(k) < 2 || (k[:2] != "H:" && k[:2] != "M:") {
+		return nil
+	}
+	var rs []Term
+	for _, r := range refs[k] {
+		if !stableTerm(r, stamp) {
+			// a reference computed inside the loop: optimistically taken to be an object
+			// allocated by the loop itself; the frame is re-checked at every back edge
+			continue
+		}
+		rs = append(rs, r)
+	}
+	was := fr.x.heapGet(se, k)
+	allocE := se.alloc
+	return func(now Term) Term {
+		fr.x.ctx.n++
+		rv := Term{fmt.Sprintf("r$%d", fr.x.ctx.n), SInt}
+		cs := []Term{Lt(IntLit(0), rv), Lt(rv, allocE)}
+		for _, r := range rs {
+			cs = append(cs, Neq(rv, r))
+		}
+		return Forall([]Term{rv}, Implies(And(cs...), Eq(Select(now, rv), Select(was, rv))), Select(now, rv))
+	}
 }
 
 type RetEdge struct {
@@ -423,6 +477,7 @@ func (fr *Frame) enterLoop(lp *Loop, edges []Edge, order []*ssa.BasicBlock) {
 	reach, se := fr.merge(edges, lp.header)
 	reach = c.Name(fmt.Sprintf("Rloop%d", lp.ordinal), reach)
 	invs := fr.loopInvariants(lp)
+	lp.frames = nil
 	// 1. invariants hold on entry
 	envE := fr.loopEnv(lp, se)
 	for i, inv := range invs {
@@ -436,7 +491,10 @@ func (fr *Frame) enterLoop(lp *Loop, edges []Edge, order []*ssa.BasicBlock) {
 	// 2. dry run to find the modified set
 	snap := c.Snapshot()
 	savedLog, savedLw, savedLogging := x.writeLog, x.lwLog, x.logging
+	savedWild, savedRef := x.wildLog, x.refLog
 	x.writeLog, x.lwLog, x.logging = map[string]bool{}, map[ssa.Value]bool{}, true
+	x.wildLog, x.refLog = map[string]bool{}, map[string]map[string]Term{}
+	stamp := c.n
 	savedRets := len(fr.rets)
 	savedEdges := fr.edges
 	fr.edges = map[*ssa.BasicBlock][]Edge{lp.header: {{reach, se.Clone(), nil}}}
@@ -454,7 +512,9 @@ func (fr *Frame) enterLoop(lp *Loop, edges []Edge, order []*ssa.BasicBlock) {
 		fr.runBlocks(order, lp)
 	}()
 	wl, lw := x.writeLog, x.lwLog
+	wild, refs := x.wildLog, x.refLog
 	x.writeLog, x.lwLog, x.logging = savedLog, savedLw, savedLogging
+	x.wildLog, x.refLog = savedWild, savedRef
 	c.Restore(snap)
 	// 3. havoc the modified set
 	sh := se.Clone()
@@ -473,7 +533,18 @@ func (fr *Frame) enterLoop(lp *Loop, edges []Edge, order []*ssa.BasicBlock) {
 		srt := x.eng.heapSorts[k]
 		nt := c.Fresh("Hl_"+shortKey(k), srt)
 		c.Assume(x.eng.rangeAxiom(k, nt))
-		x.heapSet(sh, k, nt)
+		// automatic loop frame: objects allocated before the loop that the body never
+		// writes keep their contents (checked again at every back edge)
+		if fc := fr.loopFrame(lp, k, wild, refs, stamp, se); fc != nil {
+			c.Assume(Implies(reach, fc(nt)))
+			lp.frames = append(lp.frames, loopFrame{k, fc})
+			x.heapSetFresh(sh, k, nt)
+			for _, r := range refs[k] {
+				x.heapSetAt(sh, k, nt, r)
+			}
+		} else {
+			x.heapSet(sh, k, nt)
+		}
 	}
 	var lks []ssa.Value
 	for a := range lw {
@@ -514,6 +585,7 @@ func (fr *Frame) enterLoop(lp *Loop, edges []Edge, order []*ssa.BasicBlock) {
 	}
 	lp.hdrSt = sh
 	lp.hasDec = false
+	_ = wild
 	if fr.fc != nil {
 		if d, ok := fr.fc.LoopDec[lp.ordinal]; ok {
 			t, err := envH.EvalInt(d.E)
@@ -533,6 +605,17 @@ func (fr *Frame) enterLoop(lp *Loop, edges []Edge, order []*ssa.BasicBlock) {
 		}
 		for k := range lw {
 			x.lwLog[k] = true
+		}
+		for k := range wild {
+			x.wildLog[k] = true
+		}
+		for k, m := range refs {
+			if x.refLog[k] == nil {
+				x.refLog[k] = map[string]Term{}
+			}
+			for rs, r := range m {
+				x.refLog[k][rs] = r
+			}
 		}
 	}
 }
@@ -562,6 +645,9 @@ func (fr *Frame) checkLoopBack(lp *Loop, cond Term, st *State) {
 			continue
 		}
 		fr.obligation("inv-preserve", fmt.Sprintf("loop%d.%s", lp.ordinal, labelOr(inv.Label, i+1)), cond, t, inv.Text)
+	}
+	for _, lf := range lp.frames {
+		fr.obligation("inv-preserve", fmt.Sprintf("loop%d.auto-frame %s", lp.ordinal, shortKey(lf.key)), cond, lf.f(fr.x.heapGet(st, lf.key)), "objects not written by the loop body are unchanged")
 	}
 	if ai := fr.autoInv(lp, st); ai.S != "true" {
 		fr.obligation("inv-preserve", fmt.Sprintf("loop%d.auto-rangeindex", lp.ordinal), cond, ai, "range index within bounds")
@@ -605,7 +691,7 @@ func (fr *Frame) obligation(kind, label string, reach Term, goal Term, comment s
 	pos := ""
 	if fr.curInstrPos.IsValid() {
 		p := x.eng.prog.Fset.Position(fr.curInstrPos)
-		pos = fmt.Sprintf("%s:%d", strings.TrimPrefix(p.Filename, "/repo/"), p.Line)
+		pos = fmt.Sprintf("%s:%d", strings.TrimPrefix(p.Filename, repoDir+"/"), p.Line)
 	}
 	o := &Obligation{Name: name, Func: x.cur.fnName, Kind: kind, Label: label, Reach: reach, Goal: goal, Comment: comment, Pos: pos, Inputs: x.cur.inputs, Props: x.cur.props}
 	if kind == "ensures" {
